@@ -12,24 +12,29 @@ from . import models
 SL = 0x2f
 
 
+def _clock(ex, tag):
+    """a time stamp set by the kernel: a clock reading (>= 1e9 s, printed as 'other' by both script drivers)"""
+    return clock_reading(ex, tag)
+
+
 class OsFile:
     """inode of a regular file"""
     __slots__ = ('data', 'mtime', 'atime', 'ctime')
 
     def __init__(self, ex):
         self.data = S()
-        self.mtime = Adt('SystemTime', None, [ex.fresh('os_mtime', 64)])
-        self.atime = Adt('SystemTime', None, [ex.fresh('os_atime', 64)])
-        self.ctime = Adt('SystemTime', None, [ex.fresh('os_btime', 64)])
+        self.mtime = Adt('SystemTime', None, [_clock(ex, 'os_mtime')])
+        self.atime = Adt('SystemTime', None, [_clock(ex, 'os_atime')])
+        self.ctime = Adt('SystemTime', None, [_clock(ex, 'os_btime')])
 
 
 class OsDir:
     __slots__ = ('mtime', 'atime', 'ctime')
 
     def __init__(self, ex):
-        self.mtime = Adt('SystemTime', None, [ex.fresh('os_mtime', 64)])
-        self.atime = Adt('SystemTime', None, [ex.fresh('os_atime', 64)])
-        self.ctime = Adt('SystemTime', None, [ex.fresh('os_btime', 64)])
+        self.mtime = Adt('SystemTime', None, [_clock(ex, 'os_mtime')])
+        self.atime = Adt('SystemTime', None, [_clock(ex, 'os_atime')])
+        self.ctime = Adt('SystemTime', None, [_clock(ex, 'os_btime')])
 
 
 class OsHandle:
@@ -140,6 +145,9 @@ def m_path_join(ex, c, a, m):
 def m_path_exists(ex, c, a, m):
     r = osm(ex).lookup(a[0])
     if c.endswith('try_exists'):
+        # Ok(false) only for ENOENT; any other failure of the lookup (a prefix is not a directory) is an error
+        if r[0] == 'err' and r[1] != 'NotFound':
+            return E(r[1])
         return Ok(r[0] == 'ok')
     if c.endswith('is_dir'):
         return r[0] == 'ok' and isinstance(r[2], OsDir)
